@@ -102,6 +102,21 @@ theorem verifySchnorr_eq_spec (sha256 : Bytes → Bytes) (c : Cache) (hc : Cache
     (∃ c', verifyRaw sha256 c pk m sig = some (true, c')) ↔ Spec.BIP340.verify sha256 pk m sig = true :=
   verifyRaw_iff_spec sha256 c hc pk m sig hpk hsig
 
+/-- The all-zero key.  The code's `parse_xonly` does not refuse 32 zero bytes — it returns the point at infinity
+    (with which `s·G − e·P = s·G`, so `x(s·G) ‖ s` would "verify" for every message if the verification went on) —
+    and is saved only by `verify_schnorr` raising on the point at infinity before anything else.  Proved: the model
+    of exactly that behaviour never returns True for the zero key, for every message and every signature string,
+    and BIP340 rejects it (`lift_x(0)` fails: 7 is not a square modulo p). -/
+theorem verify_rejects_zero_key (sha256 : Bytes → Bytes) (c : Cache) (pk m sig : Bytes) (hpk : pk.length = 32)
+    (h0 : beToNat pk = 0) :
+    parsePoint pk = some .inf ∧ verifyRaw sha256 c pk m sig = none ∧ Spec.BIP340.verify sha256 pk m sig = false :=
+  verifyRaw_zero_key sha256 c pk m sig hpk h0
+
+/-- more generally `verify_schnorr` with the point at infinity as key raises for every R, s and message -/
+theorem verify_raises_on_infinite_key (sha256 : Bytes → Bytes) (c : Cache) (m : Bytes) (R : Pt) (s : Nat) :
+    verifySchnorr sha256 c .inf m R s = none :=
+  verifySchnorr_inf_key sha256 c m R s
+
 /-! ## signing is BIP340 signing -/
 
 /-- `aux = None` means 32 zero bytes -/
